@@ -380,6 +380,23 @@ theorem C10_timeouts_rx_single (a : Slot) (now32 pgn src dst : Nat) (hbusy : slo
 example : slotHit 126996 30 20 true { free := false, tp := true, pgn := 126998, src := 31, dst := 20, msgTime := 5 } = false ∧
     isTimeBefore 5 200 = true ∧ hasElapsed 5 100 200 = true := by decide
 
+/-- **A live reception is never recycled.** Every in-sequence data packet stamps the slot with the current time
+(`dtSlot … msgTime := now`, see `C10_receiver` / `C10_receiver_bam`; also between CTS windows and for BAM). When another message
+needs a slot and none is free or its own, the slot that `FindFreeCANMsgIndex` hands out is at least 100 ms old; so a transfer
+whose packets arrive less than 100 ms apart (slot time `t`, search at `t + d`, `d < 100`) is never the one that is recycled -
+whatever the other slots hold - while a slot idle for 100 ms is the one taken (`C10_timeouts_rx`). -/
+theorem C10_live_session_not_recycled (slots : List Slot) (t d pgn src dst : Nat) (tp : Bool) (i : Nat) (a : Slot)
+    (hnone : findIdx (slotHit pgn src dst tp) slots = none) (ha : slots[i]? = some a) (hlive : a.msgTime = millis32 t)
+    (hd : d < 100) : (findFree slots (millis32 (t + d)) pgn src dst tp).2 ≠ some i := by
+  intro h
+  obtain ⟨b, hb, hold⟩ := findFree_recycled_old slots _ pgn src dst tp i hnone h
+  rw [ha] at hb; cases hb
+  rw [hlive, fresh_not_elapsed t d hd] at hold
+  cases hold
+
+example : findIdx (slotHit 129540 90 255 false) [{ free := false, tp := true, pgn := 126996, src := 100, dst := 20, msgTime := 5 }] = none := by
+  decide
+
 /-! ## library sender and library receiver over a loss-free in-order channel -/
 
 /-- **End to end (RTS/CTS), partial.** Node A (one device `da`) hands a transport-flagged message of 9..223 bytes for the
